@@ -276,6 +276,12 @@ def counter_rules(fx, rid, tr):
     want_m = {"LargePeerMap::insert": {"insert"}, "LargePeerMap::remove_peer": {"swap_remove"}, "LargePeerMap::clean_and_get_num_peers": {"retain", "shrink_to_fit"}}
     yield ob(rid, "counter#%s#who_mutates_peers" % tr, muts == want_m, None, None, "large map mutators: %s" % {k: sorted(v) for k, v in sorted(muts.items())},
              {"mutators": {k: sorted(v) for k, v in sorted(muts.items())}})
+    # the same closed world by place instead of by receiver name: whoever takes `&mut <LargePeerMap>.peers` (through self, a local,
+    # a freshly converted map ...) can change membership behind the counter's back
+    mb = sorted(set(bb.short.replace(M + "::", "") for bb, l, k in field_uses(fx, re.escape(M) + r"::LargePeerMap$", "peers", crates=[im["crate"]])
+                    if k == "write" and not in_test_code(bb)))
+    yield ob(rid, "counter#%s#who_borrows_peers_mutably" % tr, bool(mb) and set(mb) <= set(want_m), None, None,
+             "functions taking a mutable reference to LargePeerMap.peers: %s" % mb, {"functions": mb})
     # accessors
     b = fx.fn(M + "::LargePeerMap::num_seeders_leechers")
     r = [show(p.ret) for p in paths(fx, b) if p.end == "return"]
